@@ -65,7 +65,7 @@ PROP = dict(
     ],
     jobs=dict(
         quick=[
-            job("htlcswitch", "^TestVerifC08Atomic$", [_T], 12, shards=8, timeout=1200),
+            job("htlcswitch", "^TestVerifC08Atomic$", [_T], 30, shards=8, timeout=1500),
         ],
         thorough=[
             job("htlcswitch", "^TestVerifC08Atomic$", [_T], 25, shards=12, timeout=2400, race=True),
